@@ -487,7 +487,7 @@ func (p *Projector) ProjectOp(op Op, withReads bool) []Ev {
 		}
 		return []Ev{e}
 	case "Save":
-		effective := op.OK || (op.Injected && op.Mark == "after-effect")
+		effective := op.OK || op.Mark == "after-effect"
 		if !effective {
 			return []Ev{{"ev": "Failed", "op": "Save", "t": typeName(op.H.Type), "proc": op.Proc, "seq": op.Seq, "injected": op.Injected}}
 		}
